@@ -510,7 +510,7 @@ ERROR E1_read_bytes(E1 *a, const byte *in, const int in_len) {
     if (in[0] & 0x3F) {
       return BAD_ENCODING;
     }
-    for (int i = 1; i < G1_SER_BYTES - 1; i++) {
+    for (int i = 1; i < G1_SER_BYTES; i++) {
       if (in[i]) {
         return BAD_ENCODING;
       }
@@ -805,7 +805,7 @@ ERROR E2_read_bytes(E2 *a, const byte *in, const int in_len) {
     if (in[0] & 0x3F) {
       return BAD_ENCODING;
     }
-    for (int i = 1; i < G2_SER_BYTES - 1; i++) {
+    for (int i = 1; i < G2_SER_BYTES; i++) {
       if (in[i]) {
         return BAD_ENCODING;
       }
